@@ -1665,6 +1665,12 @@ class FDE:
             if n == 'isinstance':
                 o, c = args
                 cands = list(c) if isinstance(c, (tuple, list)) and c and isinstance(c[0], tuple) else [c]
+                if isinstance(o, PathVal) and cands and all(isinstance(x, tuple) and len(x) == 2 and x[0] in ('class', 'ext') for x in cands):
+                    mro_ = (self.repo.mro('NodePath') if 'NodePath' in self.repo.classes else ['NodePath']) + ['list', 'object']
+                    return any((x[0] == 'class' and x[1] in mro_) or (x[0] == 'ext' and isinstance(x[1], type) and issubclass(list, x[1])) for x in cands)
+                if isinstance(o, NodeInt) and cands and all(isinstance(x, tuple) and len(x) == 2 and x[0] in ('class', 'ext') for x in cands):
+                    return any((x[0] == 'class' and (x[1] in ('int', 'object', 'ConfigNode', 'ConfigScalar') or self.repo.is_subclass('ConfigScalar', x[1]) if x[1] in self.repo.classes or x[1] in ('int', 'object') else False))
+                               or (x[0] == 'ext' and isinstance(x[1], type) and issubclass(int, x[1])) for x in cands)
                 if isinstance(o, _pathlib.PurePath) and cands and all(isinstance(x, tuple) and len(x) == 2 and x[0] == 'ext' and isinstance(x[1], type) for x in cands):
                     # a pure path stands for a path object of this platform
                     return any(issubclass(x[1], _pathlib.PurePath) and (isinstance(o, x[1]) or x[1] in (_pathlib.Path, _pathlib.PosixPath)) for x in cands)
@@ -1783,7 +1789,7 @@ class FDE:
                 return self._invoke(targets[0], args, kwargs)
             if targets and n in self.stubs:
                 self.effects.append(('call', n, None, tuple(args), tuple(sorted(kwargs.items(), key=lambda kv: kv[0]))))
-                return self.stub(n, None, args, kwargs) if self.stub is not None else None
+                return self.stub(n, None, *self._both_views(targets[0], args, kwargs)) if self.stub is not None else None
             if n not in env and fi is not None and n not in self.repo.classes and (fi.module.namedtuple_fields(n) is not None or isinstance(fi.module.constant_binding(n), ast.Lambda)
                                                                                   or (isinstance(fi.module.constant_binding(n), ast.Call) and unparse(fi.module.constant_binding(n).func).split('.')[-1] in ('methodcaller', 'itemgetter', 'attrgetter'))):
                 return self._apply(self._ev(f, env, fi), args, kwargs, e)
@@ -1808,6 +1814,12 @@ class FDE:
                 return self._standin(self.extcalls[n], args, kwargs)       # a builtin the rule supplies a stand-in for (open, ...)
             raise Unsupported('call of %s (unresolved)' % n)
         if isinstance(f, ast.Attribute) and unparse(f) in self.extcalls:
+            ts_ = self.repo.resolve_call(e, fi) if fi is not None and kwargs else []
+            if len(ts_) == 1:
+                # a function of the package the rule replaces by a stand-in: the stand-in sees the positional form
+                a_, k_ = self._both_views(ts_[0], args, kwargs)
+                names_ = [x.arg for x in ts_[0].node.args.posonlyargs + ts_[0].node.args.args]
+                return self._standin(self.extcalls[unparse(f)], a_, {k: v for k, v in k_.items() if k not in names_[:len(a_)]})
             return self._standin(self.extcalls[unparse(f)], args, kwargs)
         if isinstance(f, ast.Attribute) and unparse(f) in _PURE_EXTERNALS and all(isinstance(a, (str, int)) for a in args) and not kwargs:
             return _PURE_EXTERNALS[unparse(f)](*args)
@@ -1839,7 +1851,7 @@ class FDE:
                     return self._invoke(target.fi, [target.recv] + args, kwargs)
                 self.effects.append(('call', name, target.recv, tuple(args), tuple(sorted(kwargs.items(), key=lambda kv: kv[0]))))
                 if self.stub is not None:
-                    return self.stub(name, target.recv, args, kwargs)
+                    return self.stub(name, target.recv, *self._both_views(target.fi, args, kwargs, 0 if target.fi is not None and target.fi.is_static else 1))
                 return target.recv
             if isinstance(target, tuple) and target and target[0] == 'partial':
                 return self._apply(target, args, kwargs, e)
@@ -1850,7 +1862,7 @@ class FDE:
                 if t.is_static or t.cls is None:
                     # Class.static_method(args) / module.function(args): there is no receiver among the arguments
                     self.effects.append(('call', t.name, None, tuple(args), tuple(sorted(kwargs.items()))))
-                    return self.stub(t.name, None, list(args), kwargs) if self.stub is not None else None
+                    return self.stub(t.name, None, *self._both_views(t, args, kwargs)) if self.stub is not None else None
                 self.effects.append(('call', t.name, args[0] if args else None, tuple(args[1:]), tuple(sorted(kwargs.items()))))
                 if self.stub is not None:
                     return self.stub(t.name, args[0] if args else None, args[1:], kwargs)
@@ -1911,6 +1923,25 @@ class FDE:
             return self._apply(self._ev(f, env, fi), args, kwargs, e)      # table[key](...), factory(...)(...)
         raise Unsupported('call of %s' % unparse(f))
 
+    def _both_views(self, t, args, kwargs, skip=0):
+        """arguments of a call handed to a rule's stand-in, in both views: by position (keyword arguments naming leading parameters
+        moved to their places) and by name (positional arguments also under their parameter names) - f(a, y=2) and f(a, 2) are one call"""
+        if t is None or getattr(t, 'node', None) is None or not hasattr(t.node, 'args') or any(str(k).startswith('**') for k in kwargs):
+            return list(args), dict(kwargs)
+        a = t.node.args
+        names = [x.arg for x in a.posonlyargs + a.args][skip:]
+        po = len(a.posonlyargs) - skip
+        args, kwargs = list(args), dict(kwargs)
+        for i in range(len(args), len(names)):
+            if names[i] in kwargs and i >= po:
+                args.append(kwargs[names[i]])
+            else:
+                break
+        for i, v in enumerate(args[:len(names)]):
+            if i >= po:
+                kwargs.setdefault(names[i], v)
+        return args, kwargs
+
     def _standin(self, fn, args, kwargs):
         """call of a Python stand-in (stdlib function on concrete values): what it raises is what the real call would raise"""
         try:
@@ -1945,11 +1976,11 @@ class FDE:
             if t.is_classmethod and args and isinstance(args[0], tuple) and len(args[0]) == 2 and args[0][0] == 'class':
                 args = list(args[1:])       # a stand-in for a class method sees the call's own arguments (not the class)
             self.effects.append(('call', t.name, None, tuple(args), tuple(sorted(kwargs.items(), key=lambda kv: kv[0]))))
-            return self.stub(t.name, None, args, kwargs) if self.stub is not None else None
+            return self.stub(t.name, None, *self._both_views(t, args, kwargs, 1 if (t.cls is not None and not t.is_static) else 0)) if self.stub is not None else None
         if isinstance(target, Bound) and (target.fi is not None or target.name in self.stubs):
             if target.name in self.stubs or target.fi.qualname in self.stubs:
                 self.effects.append(('call', target.name, target.recv, tuple(args), tuple(sorted(kwargs.items(), key=lambda kv: kv[0]))))
-                return self.stub(target.name, target.recv, args, kwargs) if self.stub is not None else target.recv
+                return self.stub(target.name, target.recv, *self._both_views(target.fi, args, kwargs, 0 if target.fi is not None and target.fi.is_static else 1)) if self.stub is not None else target.recv
             if target.fi.is_static:
                 return self._invoke(target.fi, args, kwargs)
             if target.fi.is_classmethod:
